@@ -60,7 +60,11 @@ def main():
                            shard=(k, n), shard_of=ob.shard_of, twin=twin, seed=ctx.SEED)
             res.update(r)
         else:
-            res.update(ob.run(tier))
+            import inspect
+            if len(inspect.signature(ob.run).parameters) >= 3:
+                res.update(ob.run(tier, k, n))
+            else:
+                res.update(ob.run(tier))
         res['ok'] = True
     except BaseException as e:
         res['ok'] = False
